@@ -62,6 +62,9 @@ func (propNull) Exec(p *Plan, x *Ctx) *Outcome {
 	} else {
 		ch = NewPolicyChooser(x.R, p.Policy, len(p.Tasks), false)
 	}
+	if p.Cfg("coarse", "") == "on" {
+		run.SetCoarse(true)
+	}
 	run.Schedule(ch)
 	for t := range slots {
 		for i, v := range slots[t] {
